@@ -36,3 +36,30 @@ Definition footprint_ok (w : option shared) (sched : list (nat * op)) : bool :=
       forallb (fun e => match wr (ev_fp e) with [] => true | _ => false end) evs && race_freeb evs
   | None => false
   end.
+
+(* ---- write footprints, observed through the hooks (frozen flag, itercount,
+   contents before / after each operation), against the model's *)
+Fixpoint fp_trace (h : heap) (tl : tls) (ops : list op) : list (list location) :=
+  match ops with
+  | [] => []
+  | o :: r =>
+      match step_heap h tl o with
+      | (h', tl', _, fp) => wr fp :: fp_trace h' tl' r
+      end
+  end.
+
+Definition same_locs (a b : list location) : bool :=
+  forallb (fun x => mem_loc x b) a && forallb (fun x => mem_loc x a) b.
+
+Fixpoint all2 {A B} (f : A -> B -> bool) (la : list A) (lb : list B) : bool :=
+  match la, lb with
+  | [], [] => true
+  | a :: ra, b :: rb => f a b && all2 f ra rb
+  | _, _ => false
+  end.
+
+Definition writes_ok (w : option heap) (ops : list op) (obs : list (list location)) : bool :=
+  match w with
+  | Some h => all2 same_locs (fp_trace h [] ops) obs
+  | None => false
+  end.
